@@ -57,11 +57,14 @@ type Config struct {
 	// model's "int" / "str" / "arr"): nothing of the reserved space is left
 	// to separate the value from what follows
 	Exact bool `json:"exact,omitempty"`
+	// Preamble: the sink already holds bytes (and stands behind them) when the
+	// Writer gets it: the file starts at a non-zero offset of the sink
+	Preamble bool `json:"preamble,omitempty"`
 }
 
 // baseFamily names the model configuration (the Exact variant shares it).
 func (c Config) baseFamily() string {
-	c.Exact = false
+	c.Exact, c.Preamble = false, false
 	return c.family()
 }
 
@@ -78,6 +81,9 @@ func (c Config) family() string {
 	}
 	if c.Exact {
 		return strings.Join(s, "_") + "_exact"
+	}
+	if c.Preamble {
+		return strings.Join(s, "_") + "_preamble"
 	}
 	return strings.Join(s, "_")
 }
@@ -148,6 +154,9 @@ func Execute(c *Case) (rec *Record, err error) {
 		sink = &shared.SeekMemSink{}
 	} else {
 		sink = &shared.MemSink{}
+	}
+	if c.Cfg.Preamble {
+		sink.Write([]byte("junk in front of the file\n"))
 	}
 	v, verr := pdf.ParseVersion(c.Cfg.Version)
 	if verr != nil {
@@ -473,6 +482,9 @@ func configs(thorough bool) []Config {
 				}
 				if !enc {
 					out = append(out, Config{Seekable: seek, ObjStm: os, Version: vs[0], Exact: true})
+				}
+				if seek {
+					out = append(out, Config{Seekable: true, ObjStm: os, Encrypted: enc, Version: vs[0], Preamble: true})
 				}
 			}
 		}
